@@ -56,6 +56,11 @@ type gstate struct {
 	stack    string
 	vc       vclock
 	name     string
+	// causal-history hashing (state keys for unbounded exploration)
+	hist   uint64 // hash of everything this goroutine has observed (its causal past)
+	ident  uint64 // schedule-independent identity: hash of (parent identity, spawn index)
+	spawns uint64
+	chans  uint64
 }
 
 // Exec is one controlled execution.
@@ -75,6 +80,9 @@ type Exec struct {
 	races    *raceTable
 	maxSteps int
 	Diverged string
+	visit    func(key uint64) bool
+	Pruned   bool // stopped because the state reached had been visited before
+	chansAll []*chanCore
 }
 
 // Point records one scheduling decision.
@@ -302,9 +310,11 @@ func (e *Exec) perform(t transition) []*gstate {
 	}
 	switch t.kind {
 	case "run":
+		g.hist = mix(g.hist, 1000)
 		return []*gstate{g}
 	case "choose":
 		p.chosen = t.alt
+		g.hist = mix(g.hist, 1001, uint64(t.alt))
 		return []*gstate{g}
 	case "close":
 		c := p.ch
@@ -313,21 +323,27 @@ func (e *Exec) perform(t transition) []*gstate {
 			return []*gstate{g}
 		}
 		c.closed = true
+		c.closeH = g.hist
+		g.hist = mix(g.hist, 1002, c.ident)
 		c.closeVC = g.vc.copy()
 		g.vc.tick(g.id)
 		return []*gstate{g}
 	case "lock":
 		p.mu.locked = true
+		g.hist = mix(g.hist, 1003, p.mu.hist)
 		g.vc.join(p.mu.vc)
 		return []*gstate{g}
 	case "rlock":
 		p.mu.readers++
+		g.hist = mix(g.hist, 1013, p.mu.hist)
 		g.vc.join(p.mu.vc)
 		return []*gstate{g}
 	case "wait":
+		g.hist = mix(g.hist, 1005, p.wg.hist)
 		g.vc.join(p.wg.vc)
 		return []*gstate{g}
 	case "default":
+		g.hist = mix(g.hist, 1006, uint64(t.caseI))
 		p.chosen = t.caseI
 		return []*gstate{g}
 	}
@@ -343,6 +359,7 @@ func (e *Exec) perform(t transition) []*gstate {
 	setChosen(g, t.caseI)
 	switch t.kind {
 	case "send-closed":
+		g.hist = mix(g.hist, 1014, c.ident)
 		p.panicv = "send on closed channel"
 		return []*gstate{g}
 	case "send-buf":
@@ -353,6 +370,18 @@ func (e *Exec) perform(t transition) []*gstate {
 			put = p.cases[0].put
 		}
 		put()
+		{
+			scase := sc
+			if scase == nil {
+				scase = p.cases[0]
+			}
+			c.bufH = append(c.bufH, mix(g.hist, scase.vhash()))
+			if len(c.recvH) > 0 {
+				g.hist = mix(g.hist, c.recvH[0])
+				c.recvH = c.recvH[1:]
+			}
+			g.hist = mix(g.hist, 1007, c.ident, uint64(t.caseI+1))
+		}
 		c.buf = append(c.buf, g.vc.copy())
 		// k-th receive happens-before (k+cap)-th send completes
 		if len(c.recvVCs) > 0 {
@@ -370,6 +399,9 @@ func (e *Exec) perform(t transition) []*gstate {
 		}
 		take(true)
 		p.ok = true
+		g.hist = mix(g.hist, 1008, c.ident, uint64(t.caseI+1), c.bufH[0])
+		c.bufH = c.bufH[1:]
+		c.recvH = append(c.recvH, g.hist)
 		g.vc.join(c.buf[0])
 		c.buf = c.buf[1:]
 		c.recvVCs = append(c.recvVCs, g.vc.copy())
@@ -384,6 +416,7 @@ func (e *Exec) perform(t transition) []*gstate {
 		}
 		take(false)
 		p.ok = false
+		g.hist = mix(g.hist, 1009, c.ident, uint64(t.caseI+1), c.closeH)
 		g.vc.join(c.closeVC)
 		return []*gstate{g}
 	case "rendezvous":
@@ -403,6 +436,11 @@ func (e *Exec) perform(t transition) []*gstate {
 		}
 		sendCase.handoff(recvCase)
 		hp.ok = true
+		{
+			sh, rh := g.hist, h.hist
+			g.hist = mix(sh, 1010, c.ident, uint64(t.caseI+1), rh)
+			h.hist = mix(rh, 1011, c.ident, uint64(t.peerI+1), sh, sendCase.vhash())
+		}
 		// unbuffered: send happens-before receive completes, and receive before send completes
 		sv, rv := g.vc.copy(), h.vc.copy()
 		g.vc.join(rv)
@@ -432,6 +470,9 @@ func (e *Exec) resume(g *gstate) {
 type Options struct {
 	MaxSteps int
 	Races    bool
+	// Visit, if set, is called with the key of the global state at every scheduling point
+	// after the replayed prefix; returning false prunes the execution there.
+	Visit func(key uint64) bool
 }
 
 // Run executes body under the controlled scheduler following the given choice
@@ -444,6 +485,7 @@ func Run(prefix []int, opt Options, body func()) *Exec {
 	if opt.Races {
 		e.races = newRaceTable()
 	}
+	e.visit = opt.Visit
 	activeMu.Lock()
 	if active != nil {
 		activeMu.Unlock()
@@ -466,6 +508,12 @@ func Run(prefix []int, opt Options, body func()) *Exec {
 		if e.step >= e.maxSteps {
 			e.Diverged = "step limit reached"
 			break
+		}
+		if e.visit != nil && e.step >= len(e.choices) {
+			if !e.visit(e.StateKey()) {
+				e.Pruned = true
+				break
+			}
 		}
 		choice := 0
 		if e.step < len(e.choices) {
@@ -491,7 +539,7 @@ func Run(prefix []int, opt Options, body func()) *Exec {
 	}
 	// quiescent: everything finished, or deadlock / leak
 	for _, g := range e.gs {
-		if !g.finished {
+		if !g.finished && !e.Pruned && e.Diverged == "" {
 			e.Deadlock = true
 			e.Leaked = append(e.Leaked, fmt.Sprintf("g%d(%s) blocked at %s", g.id, g.name, describe(g.pend)))
 		}
@@ -547,6 +595,14 @@ func (e *Exec) spawn(f func(), name string, parent *gstate) *gstate {
 		parent.vc.tick(parent.id)
 	}
 	g.vc.tick(g.id)
+	if parent != nil {
+		parent.spawns++
+		g.ident = mix(parent.ident, 2001, parent.spawns)
+		g.hist = mix(parent.hist, 2002, parent.spawns)
+		parent.hist = mix(parent.hist, 2003, parent.spawns)
+	} else {
+		g.ident, g.hist = 1, 1
+	}
 	g.pend = &pendingOp{kind: opStart}
 	e.gs = append(e.gs, g)
 	go func() {
@@ -619,3 +675,47 @@ func Choose(n int) int {
 
 // Active reports whether a controlled execution is in progress.
 func Active() bool { return current() != nil }
+
+// mix combines hashes (order-sensitive).
+func mix(h uint64, xs ...uint64) uint64 {
+	for _, x := range xs {
+		h ^= x + 0x9e3779b97f4a7c15 + (h << 6) + (h >> 2)
+		h *= 0x100000001b3
+	}
+	return h
+}
+
+// StateKey hashes the global state: every goroutine's identity, causal history and
+// status, and every channel's buffered items. Two executions reaching the same key have the
+// same futures provided the program is free of data races (each goroutine is a deterministic
+// function of what it observed, and what it observed is what its history hash covers).
+func (e *Exec) StateKey() uint64 {
+	type ent struct{ id, h uint64 }
+	ents := make([]ent, 0, len(e.gs)+len(e.chansAll))
+	for _, g := range e.gs {
+		f := uint64(0)
+		if g.finished {
+			f = 1
+		}
+		ents = append(ents, ent{g.ident, mix(g.hist, f)})
+	}
+	for _, c := range e.chansAll {
+		h := uint64(len(c.bufH))
+		if c.closed {
+			h = mix(h, 7)
+		}
+		h = mix(h, c.bufH...)
+		ents = append(ents, ent{c.ident, h})
+	}
+	sort.Slice(ents, func(i, j int) bool {
+		if ents[i].id != ents[j].id {
+			return ents[i].id < ents[j].id
+		}
+		return ents[i].h < ents[j].h
+	})
+	var k uint64 = 14695981039346656037
+	for _, x := range ents {
+		k = mix(k, x.id, x.h)
+	}
+	return k
+}
